@@ -45,6 +45,10 @@ if os.path.isdir(sd):
         m = json.load(open(mp))
         et = m.get("existing_tests") or {}
         suite = ("builds; %s/%s test executables pass" % ((et.get("total") or 0) - (et.get("failed") or 0), et.get("total"))) if et else ("does not build" if m.get("builds_with_change") is False else "-")
+        rr = et.get("rerun")
+        if rr and et.get("failed"):
+            suite += ("; re-run of %s with the change applied on a quieter machine: passes (load flake)" % ", ".join(rr.get("tests", {}))
+                      if rr.get("verdict", "").startswith("load flake") else "; re-run: still failing")
         demo = m.get("demo_verdict") or ("see meta.json" if m.get("demo") else "-")
         what = m.get("what", "")
         out += "| %s | %s | %s | %s | %s | %s |\n" % (d, m["property"], suite, demo, m.get("final_verdict") or m["check"]["verdict"], what.replace("|", "\\|")[:300])
